@@ -114,6 +114,8 @@ EX = dict(llc.BITS_EXTRACTS,
                           (r'link_layer\.phy_update\( (\w+), (\w+), link_layer\.connection_data_, link_layer \);', r'cb_phy_update( \1, \2 );', '+')]),
     phy_enc=dict(kind='enum', file='bluetoe/link_layer/include/bluetoe/phy_encodings.hpp', name='phy_ll_encoding_t', rename='phy_ll_encoding'),
     phy_req=dict(file=LL, scope=PHYS, locate=r'bool handle_phy_request\( std::uint8_t opcode, std::uint8_t size, const write_buffer& pdu, read_buffer& write, LL& link_layer, bool& commit \)', pre=PHY_PRE, no_members=True),
+    no_phy_req=dict(file=LL, scope=r'struct no_phy_update_request_impl\s*(?=\{)', locate=r'bool handle_phy_request\( std::uint8_t opcode, std::uint8_t, const write_buffer&, read_buffer, LL& link_layer, bool& \)', no_members=True,
+                    pre=[(r'\bLL::', '', '+'), (r'link_layer\.procedure_timeout_\s*= delta_time\(\);', 'self->procedure_timeout_ = 0;', '*'), (r'\blink_layer\.', 'self->', '+')]),
     phy_valid=dict(file=LL, scope=PHYS, locate=r'bool valid_phy_encoding\( std::uint8_t c \) const', pre=PHY_PRE[4:5], no_members=True),
 )
 CODE = llc.BITS_CODE + '\n'.join('#define %s ((uint8_t)({{%s}}))' % (k, k) for k in OPS) + r'''
@@ -362,6 +364,14 @@ __CPROVER_ensures((!W_deferred && IS_DEFERRED(self)) ==> (G_rx.freed >= 1 && W_d
 __CPROVER_ensures((!W_deferred && G_rx.stuck) ==> (G_rx.freed < G_rx.total && (LLID_OF(G_rx.freed) == ll_control_pdu_code ? !W_tx_ok[G_rx.freed] : (LLID_OF(G_rx.freed) == lld_data_pdu_code && (W_state == state_disconnecting || !W_l2[G_rx.freed])))))
 __CPROVER_assigns(__CPROVER_object_whole(self), G_rx)
 {{received}}
+/* the link layer of a radio without 2 MBit support (no_phy_update_request_impl): no PHY PDU is handled (the caller answers LL_UNKNOWN_RSP), but the LL_PHY_UPDATE_IND that answers
+   an own LL_PHY_REQ (phy_update_request() is available there too) ends the response time out - an answered procedure must not end the connection */
+bool no_phy_handle_phy_request(struct ll* self, uint8_t opcode)
+__CPROVER_requires(LL_OK(self) && opcode == W_op)
+__CPROVER_ensures(!__CPROVER_return_value)
+__CPROVER_ensures((W_op == LL_PHY_UPDATE_IND && W_phy_running) ? (self->procedure_timeout_ == 0 && !self->phy_update_request_running_) : (self->procedure_timeout_ == W_proc && self->phy_update_request_running_ == W_phy_running))
+__CPROVER_assigns(__CPROVER_object_whole(self))
+{{no_phy_req}}
 #define SETUP struct ll* s; W_t = nondet_u32(); W_out_pending = nondet_bool(); W_recv_disconnect = nondet_bool(); W_pending_disconnect = nondet_bool(); W_alloc_ok = nondet_bool(); W_cpr_rsp_pending = nondet_bool(); W_counter_after = nondet_u16(); \
   W_state = nondet_int(); W_proc = nondet_u32(); W_conn_timeout = nondet_u32(); W_interval = nondet_u32(); W_term_sent = nondet_bool(); W_deferred = nondet_bool(); W_instant = nondet_u16(); W_cpr_pending = nondet_bool(); W_phy_pending = nondet_bool(); W_ver_pending = nondet_bool(); W_version_sent = nondet_bool(); W_phy_running = nondet_bool(); \
   G_o = (struct o_rec){ 0 }; W_op = nondet_u8(); W_size = nondet_u8(); W_pdu[3] = nondet_u8(); W_pdu[4] = nondet_u8(); W_pdu[5] = nondet_u8(); W_pdu[6] = nondet_u8(); W_commit = nondet_bool(); G_set_phy.calls = 0; G_established = 0; G_enc_resets = 0; G_a.n = 0; G_supported_features = nondet_u16(); W_conn_req = nondet_bool(); W_map_ok = nondet_bool(); W_timing_ok = nondet_bool(); G_rx = (struct rx_rec){ 0 }; G_rx.total = nondet_size(); G_rx.order_ok = true; G_k = nondet_size(); BT_KNOWN_EXCLUDE()
@@ -375,6 +385,7 @@ void h_adv_received(void) { SETUP; struct rbuf* r; adv_received(s, r); BT_CANARY
 void h_ll_disconnect(void) { SETUP; ll_disconnect(s, nondet_u8()); BT_CANARY(); }
 void h_handle_received_data(void) { SETUP; handle_received_data(s); BT_CANARY(); }
 void h_handle_pending_phy_request(void) { SETUP; handle_pending_phy_request(s, W_op); BT_CANARY(); }
+void h_no_phy_handle_phy_request(void) { SETUP; no_phy_handle_phy_request(s, W_op); BT_CANARY(); }
 void h_valid_phy_encoding(void) { valid_phy_encoding(nondet_u8()); BT_CANARY(); }
 void h_handle_phy_request(void) { SETUP; struct wbuf* p; struct rbuf* w; bool* c; handle_phy_request(s, W_op, W_size, p, w, c); BT_CANARY(); }
 '''
